@@ -27,6 +27,9 @@ pub struct Expect {
   pub token: String,
   pub value: String,
   pub category: &'static str,
+  /// "kind=<StaticDependencyKind|DynamicDependencyKind>;side_effect=<bool>;attrs=<k=v,...|none|unknown>" when the
+  /// construct pins it
+  pub detail: Option<String>,
 }
 
 struct Builder {
@@ -44,8 +47,15 @@ impl Builder {
       token: token.to_string(),
       value: value.to_string(),
       category,
+      detail: None,
     });
     self.src.push_str(token);
+  }
+  /// pins kind / side-effect flag / attributes of the token written last
+  fn detail(&mut self, kind: &str, side_effect: bool, attrs: &str) {
+    if let Some(e) = self.expects.last_mut() {
+      e.detail = Some(format!("kind={};side_effect={};attrs={}", kind, side_effect, attrs));
+    }
   }
 }
 
@@ -238,7 +248,7 @@ pub fn gen_program(rng: &mut Rng, forced: Option<usize>) -> Program {
     None if no_statements => 0,
     None => rng.range(1, 9),
   };
-  let all_kinds = 22usize;
+  let all_kinds = 28usize;
   let mut stmt_no = 0;
   for _ in 0..n {
     stmt_no += 1;
@@ -291,6 +301,7 @@ pub fn gen_program(rng: &mut Rng, forced: Option<usize>) -> Program {
         pragma(&mut b, rng, &mut constructs);
         b.push(&format!("import d{}{} from{}", stmt_no, t(rng), t(rng)));
         b.token(&lit, &val, "static");
+        b.detail("Import", false, "none");
         b.push(";\n");
         constructs.push("import-default");
       }
@@ -298,12 +309,14 @@ pub fn gen_program(rng: &mut Rng, forced: Option<usize>) -> Program {
         pragma(&mut b, rng, &mut constructs);
         b.push(&format!("import {{ a as b{} }} from ", stmt_no));
         b.token(&lit, &val, "static");
+        b.detail("Import", false, "none");
         b.push("\n");
         constructs.push("import-named");
       }
       2 => {
         b.push("import ");
         b.token(&lit, &val, "static");
+        b.detail("Import", true, "none");
         b.push(";");
         constructs.push("import-side-effect");
       }
@@ -311,6 +324,7 @@ pub fn gen_program(rng: &mut Rng, forced: Option<usize>) -> Program {
         pragma(&mut b, rng, &mut constructs);
         b.push(&format!("import * as ns{} from ", stmt_no));
         b.token(&lit, &val, "static");
+        b.detail("Import", false, "none");
         b.push(";\r\n");
         constructs.push("import-namespace");
       }
@@ -318,42 +332,49 @@ pub fn gen_program(rng: &mut Rng, forced: Option<usize>) -> Program {
         pragma(&mut b, rng, &mut constructs);
         b.push(&format!("export {{ e{} }} from ", stmt_no));
         b.token(&lit, &val, "static");
+        b.detail("Export", false, "none");
         b.push(";\n");
         constructs.push("export-named-from");
       }
       5 => {
         b.push("export * from ");
         b.token(&lit, &val, "static");
+        b.detail("Export", false, "none");
         b.push(";\n");
         constructs.push("export-star");
       }
       6 => {
         b.push(&format!("export * as n{} from ", stmt_no));
         b.token(&lit, &val, "static");
+        b.detail("Export", false, "none");
         b.push(";\n");
         constructs.push("export-star-as");
       }
       7 if lang.typed() => {
         b.push(&format!("import type {{ T{} }} from ", stmt_no));
         b.token(&lit, &val, "static");
+        b.detail("ImportType", false, "none");
         b.push(";\n");
         constructs.push("import-type");
       }
       8 if lang.typed() => {
         b.push(&format!("export type {{ U{} }} from ", stmt_no));
         b.token(&lit, &val, "static");
+        b.detail("ExportType", false, "none");
         b.push(";\n");
         constructs.push("export-type");
       }
       9 if lang.typed() && lang != Lang::Dts => {
         b.push(&format!("import r{} = require(", stmt_no));
         b.token(&lit, &val, "static");
+        b.detail("ImportEquals", false, "none");
         b.push(");\n");
         constructs.push("import-equals");
       }
       10 if lang.typed() && lang != Lang::Dts => {
         b.push(&format!("export import x{} = require(", stmt_no));
         b.token(&lit, &val, "static");
+        b.detail("ExportEquals", false, "none");
         b.push(");\n");
         constructs.push("export-import-equals");
       }
@@ -372,6 +393,7 @@ pub fn gen_program(rng: &mut Rng, forced: Option<usize>) -> Program {
         b.push(&open);
         b.push(&format!("const dy{} = {}import({}", stmt_no, if awaited { "await " } else { "" }, t(rng)));
         b.token(&lit, &val, "dynamic");
+        b.detail("Import", false, "none");
         b.push(&format!("{});\n", t(rng)));
         b.push(close);
         constructs.push(match container {
@@ -406,7 +428,24 @@ pub fn gen_program(rng: &mut Rng, forced: Option<usize>) -> Program {
       13 if lang != Lang::Dts => {
         b.push(&format!("const dj{} = import(", stmt_no));
         b.token(&lit, &val, "dynamic");
-        b.push(", { with: { type: \"json\" } });\n");
+        match rng.below(4) {
+          0 => {
+            b.detail("Import", false, "type=?");
+            b.push(", { with: { type: someVariable } });\n");
+          }
+          1 => {
+            b.detail("Import", false, "unknown");
+            b.push(", { with: someVariable });\n");
+          }
+          2 => {
+            b.detail("Import", false, "type=json");
+            b.push(", { \"with\": { \"type\": 'json', }, });\n");
+          }
+          _ => {
+            b.detail("Import", false, "type=json");
+            b.push(", { with: { type: \"json\" } });\n");
+          }
+        }
         constructs.push("dynamic-import-attributes");
       }
       14 if lang.typed() => {
@@ -420,6 +459,7 @@ pub fn gen_program(rng: &mut Rng, forced: Option<usize>) -> Program {
         b.push(&open);
         b.push(&format!("type I{} = import(", stmt_no));
         b.token(&lit, &val, "static");
+        b.detail("ImportType", false, "none");
         b.push(").Foo;\n");
         b.push(close);
         constructs.push(match container {
@@ -438,6 +478,7 @@ pub fn gen_program(rng: &mut Rng, forced: Option<usize>) -> Program {
           b.push(&format!("declare const tv{}: typeof import(", stmt_no));
         }
         b.token(&lit, &val, "static");
+        b.detail("ImportType", false, "none");
         b.push(");\n");
         if in_global {
           b.push(" }\n");
@@ -447,7 +488,13 @@ pub fn gen_program(rng: &mut Rng, forced: Option<usize>) -> Program {
       16 => {
         b.push(&format!("import j{} from ", stmt_no));
         b.token(&lit, &val, "static");
-        b.push(" with { type: \"json\" };\n");
+        if rng.coin() {
+          b.detail("Import", false, "type=json");
+          b.push(" with { type: \"json\" };\n");
+        } else {
+          b.detail("Import", false, "lang=x,type=text");
+          b.push(" with { \"type\": 'text', lang: \"x\" };\n");
+        }
         constructs.push("import-attributes");
       }
       17 if lang.plain_js() => {
@@ -465,6 +512,7 @@ pub fn gen_program(rng: &mut Rng, forced: Option<usize>) -> Program {
       19 if lang.typed() => {
         b.push("declare module ");
         b.token(&lit, &val, "static");
+        b.detail("MaybeTsModuleAugmentation", false, "none");
         b.push(" { export const z: number; }\n");
         constructs.push("declare-module");
       }
@@ -472,6 +520,62 @@ pub fn gen_program(rng: &mut Rng, forced: Option<usize>) -> Program {
         // non-analysable dynamic import: declares nothing
         b.push(&format!("const dn{} = import(someVariable + \"./decoy.ts\");\n", stmt_no));
         constructs.push("dynamic-import-expression");
+      }
+      22 if lang != Lang::Dts => {
+        // a plain `require("…")` call
+        b.push(&format!("const rq{} = require({}", stmt_no, t(rng)));
+        b.token(&lit, &val, "dynamic");
+        b.detail("Require", false, "none");
+        b.push(");\n");
+        constructs.push("require-call");
+      }
+      23 if lang != Lang::Dts => {
+        // a dependency call nested in the (non-analysable) argument of another one
+        b.push(&format!("const nn{} = import((await import(", stmt_no));
+        b.token(&lit, &val, "dynamic");
+        b.detail("Import", false, "none");
+        b.push(")).default.entry);\n");
+        constructs.push("dynamic-import-nested-in-import-argument");
+      }
+      24 if lang != Lang::Dts => {
+        b.push(&format!("const rr{} = require(require(", stmt_no));
+        b.token(&lit, &val, "dynamic");
+        b.detail("Require", false, "none");
+        b.push(").join(\"a\", \"b\"));\n");
+        constructs.push("require-nested-in-require-argument");
+      }
+      25 if lang != Lang::Dts => {
+        // a dependency call nested in the options argument of an analysable one
+        let name2 = *rng.pick(NAMES);
+        let (lit2, val2) = string_literal(rng, name2);
+        b.push(&format!("const no{} = import(", stmt_no));
+        b.token(&lit, &val, "dynamic");
+        b.detail("Import", false, "unknown");
+        b.push(", (await import(");
+        b.token(&lit2, &val2, "dynamic");
+        b.detail("Import", false, "none");
+        b.push(")).default.options);\n");
+        constructs.push("dynamic-import-nested-in-import-options");
+      }
+      26 if lang != Lang::Dts => {
+        let defer = rng.coin();
+        b.push(&format!("const dp{} = import.{}(", stmt_no, if defer { "defer" } else { "source" }));
+        b.token(&lit, &val, "dynamic");
+        b.detail(if defer { "ImportDefer" } else { "ImportSource" }, false, "none");
+        b.push(");\n");
+        constructs.push("dynamic-import-phase");
+      }
+      27 => {
+        let defer = rng.coin();
+        if defer {
+          b.push(&format!("import defer * as df{} from ", stmt_no));
+        } else {
+          b.push(&format!("import source sr{} from ", stmt_no));
+        }
+        b.token(&lit, &val, "static");
+        b.detail(if defer { "ImportDefer" } else { "ImportSource" }, false, "none");
+        b.push(";\n");
+        constructs.push("import-phase");
       }
       _ => {
         b.push(&format!("const plain{} = \"import './decoy.ts'\";\n", stmt_no));
@@ -541,11 +645,32 @@ pub struct Reported {
   pub slice: String,
   pub value: String,
   pub category: &'static str,
+  pub detail: String,
+}
+
+fn attrs_text(a: &deno_graph::analysis::ImportAttributes) -> String {
+  use deno_graph::analysis::ImportAttribute;
+  use deno_graph::analysis::ImportAttributes;
+  match a {
+    ImportAttributes::None => "none".to_string(),
+    ImportAttributes::Unknown => "unknown".to_string(),
+    ImportAttributes::Known(m) => {
+      let mut v: Vec<String> = m
+        .iter()
+        .map(|(k, v)| match v {
+          ImportAttribute::Known(x) => format!("{}={}", k, x),
+          ImportAttribute::Unknown => format!("{}=?", k),
+        })
+        .collect();
+      v.sort();
+      v.join(",")
+    }
+  }
 }
 
 fn flatten(info: &ModuleInfo, text: &str) -> Result<Vec<Reported>, String> {
   let mut out = vec![];
-  let mut add = |r: &PositionRange, value: &str, category: &'static str| -> Result<(), String> {
+  let mut add_d = |r: &PositionRange, value: &str, category: &'static str, detail: String| -> Result<(), String> {
     let s = pos_to_byte(text, &r.start).ok_or(format!("start {:?} outside text", r.start))?;
     let e = pos_to_byte(text, &r.end).ok_or(format!("end {:?} outside text", r.end))?;
     if e < s || !text.is_char_boundary(s) || !text.is_char_boundary(e) {
@@ -556,51 +681,67 @@ fn flatten(info: &ModuleInfo, text: &str) -> Result<Vec<Reported>, String> {
       slice: text[s..e].to_string(),
       value: value.to_string(),
       category,
+      detail,
     });
     Ok(())
   };
+  macro_rules! add {
+    ($r:expr, $v:expr, $c:expr) => {
+      add_d($r, $v, $c, String::new())
+    };
+  }
   for d in &info.dependencies {
     match d {
       DependencyDescriptor::Static(s) => {
-        add(&s.specifier_range, &s.specifier, "static")?;
+        add_d(
+          &s.specifier_range,
+          &s.specifier,
+          "static",
+          format!("kind={:?};side_effect={};attrs={}", s.kind, s.is_side_effect, attrs_text(&s.import_attributes)),
+        )?;
         if let Some(t) = &s.types_specifier {
-          add(&t.range, &t.text, "types-pragma")?;
+          add!(&t.range, &t.text, "types-pragma")?;
         }
       }
       DependencyDescriptor::Dynamic(dy) => {
         match &dy.argument {
-          DynamicArgument::String(t) => add(&dy.argument_range, t, "dynamic")?,
-          DynamicArgument::Template(_) => add(&dy.argument_range, "<template>", "dynamic-template")?,
+          DynamicArgument::String(t) => add_d(
+            &dy.argument_range,
+            t,
+            "dynamic",
+            format!("kind={:?};side_effect=false;attrs={}", dy.kind, attrs_text(&dy.import_attributes)),
+          )?,
+          DynamicArgument::Template(_) => add!(&dy.argument_range, "<template>", "dynamic-template")?,
           DynamicArgument::Expr => {}
         }
         if let Some(t) = &dy.types_specifier {
-          add(&t.range, &t.text, "types-pragma")?;
+          add!(&t.range, &t.text, "types-pragma")?;
         }
       }
     }
   }
   for r in &info.ts_references {
     match r {
-      TypeScriptReference::Path(s) => add(&s.range, &s.text, "ts-reference-path")?,
+      TypeScriptReference::Path(s) => add!(&s.range, &s.text, "ts-reference-path")?,
       TypeScriptReference::Types { specifier, .. } => {
-        add(&specifier.range, &specifier.text, "ts-reference-types")?
+        add!(&specifier.range, &specifier.text, "ts-reference-types")?
       }
     }
   }
   if let Some(s) = &info.self_types_specifier {
-    add(&s.range, &s.text, "ts-self-types")?;
+    add!(&s.range, &s.text, "ts-self-types")?;
   }
   if let Some(s) = &info.jsx_import_source {
-    add(&s.range, &s.text, "jsx-import-source")?;
+    add!(&s.range, &s.text, "jsx-import-source")?;
   }
   if let Some(s) = &info.jsx_import_source_types {
-    add(&s.range, &s.text, "jsx-import-source-types")?;
+    add!(&s.range, &s.text, "jsx-import-source-types")?;
   }
   for j in &info.jsdoc_imports {
-    add(&j.specifier.range, &j.specifier.text, "jsdoc")?;
+    add!(&j.specifier.range, &j.specifier.text, "jsdoc")?;
   }
   if let Some(s) = &info.source_map_url {
-    add(&s.range, &s.text, "source-map-url")?;
+    add!(&s.range, &s.text, "source-map-url")?;
   }
   out.sort();
   Ok(out)
@@ -714,6 +855,15 @@ fn check_program(p: &Program, acc: &mut Acc, idx: u64) {
       acc.violation(
         format!("specifier-text/{}", cat),
         format!("reported text {:?}, unescaped value {:?}", r.value, e.value),
+        w(json!({})),
+      );
+    } else if let Some(d) = e.detail.as_ref().filter(|d| **d != r.detail) {
+      acc.violation(
+        format!("descriptor/{}/{}", cat, {
+          let diff: Vec<&str> = d.split(';').zip(r.detail.split(';')).filter(|(a, b)| a != b).map(|(a, _)| a.split('=').next().unwrap_or("")).collect();
+          diff.join("+")
+        }),
+        format!("{:?}: expected {}, analysis reported {}", e.token, d, r.detail),
         w(json!({})),
       );
     } else if !cat_ok {
@@ -897,7 +1047,7 @@ fn corpus(acc: &mut Acc) {
 
 pub fn run(tier: Tier, seed: u64) -> i32 {
   let mut rep = Report::new("C08", tier, seed);
-  rep.rule = "program = optional BOM + optional shebang + leading pragmas (reference path/types, @ts-self-types, @jsxImportSource(+Types), decoys) + 1-9 statements of 22 construct kinds \
+  rep.rule = "program = optional BOM + optional shebang + leading pragmas (reference path/types, @ts-self-types, @jsxImportSource(+Types), decoys) + 1-9 statements of 28 construct kinds \
     (default/named/namespace/side-effect imports, export-from forms, import/export type, import-equals, dynamic import with string / template / attributes / non-analysable argument, import type expressions, typeof import, \
     import attributes, JSDoc import types and @import tags, declare module, plain statements with decoy text), optionally preceded by @deno-types (quoted and quoteless) / @ts-types pragmas, separated by trivia \
     (block/line comments with decoy imports, accented, astral and combining characters, U+2028, CRLF/LF, tabs), string literals with \\x, \\u, \\u{} and surrogate-pair escapes and both quote styles, optional trailing sourceMappingURL. \
@@ -932,7 +1082,7 @@ pub fn run(tier: Tier, seed: u64) -> i32 {
     }
   });
   // every single-construct program x many trivia contexts
-  let acc2 = par_run(22, |k, acc| {
+  let acc2 = par_run(28, |k, acc| {
     let mut rng = Rng::new(seed).fork(k as u64 ^ 0x51);
     for j in 0..tier.pick(60, 600) {
       let p = gen_program(&mut rng, Some(k));
